@@ -206,7 +206,7 @@ PROPS["C01"] = {
                  + [H("c01::" + n, "quick", 900, what="serialise-then-parse identity in one query") for n in ["c01_rt_nonverbose_min", "c01_rt_control_le", "c01_rt_verbose_bool_le", "c01_rt_nettrace_be", "c01_rt_nonverbose_nwtrace_type"]]
                  + [H("c02w::c02w_ids_multibyte_utf8", "quick", 600, what="ids with multi-byte UTF-8 characters are written into exactly 4 bytes (whole-message harnesses use ASCII ids)")]
                  + [H(e["name"], e["tier"], 900, what="serialise-then-parse identity in one query, one argument layout") for e in _json.load(open(_os.path.join(_os.path.dirname(_os.path.abspath(__file__)), "catalogue.json")))["rt_arg"]]
-                 + [H("c01::c01_p_verbose_two_args_u8_bool", "thorough", 3600, mem_gb=40)]
+                 + [H("c01::c01_p_verbose_two_args_u8_bool", "quick", 900, what="two arguments in one verbose message (the second argument starts where the first ends)")]
                  + [H("c14::c14_msin_via_extended_header_parse", "quick", 300, what="every MSIN code (incl. reserved message types) is accepted and decoded by the extended-header parser"),
                     H("c14::c14_msin_via_extended_header_write", "quick", 300, what="every message type value is written as its MSIN code")]
                  + [H(e["name"], e["tier"], 900) for e in _json.load(open(_os.path.join(_os.path.dirname(_os.path.abspath(__file__)), "catalogue.json")))["p_arg"]],
